@@ -94,6 +94,27 @@ def gen(chk, impl=None):
         full = mant <= 4 and nfull < chk.scale(8, 80)
         if pr and full: chk._nfull = nfull + 1
         if pr: mutations(chk, pr, 'm%d' % min(mant, 9) if mant < 9 else 'm9plus', heavy=(mant > 8), light=not full)
+    # ---- a digit commitment with a TINY x coordinate, written canonically (accepted) and as x + p (must be rejected although the
+    # ring signature is made over exactly those bytes).  The free generator is chosen so that the first digit commitment
+    # sec0*G + 1*gen is a given point with tiny x.
+    found = 0; x = 0
+    while found < chk.scale(3, 12):
+        x += 1
+        T0 = lift_x(x)
+        if T0 is None: continue
+        found += 1
+        for T in (T0, neg(T0)):
+            sec0 = r.seckey(); gen_ = add(T, neg(fmul(sec0, G)))
+            if gen_ is None: continue
+            for mant in (3, 4):
+                dig = [1] + [r.below(rs) for rs in layout(mant)[1:]]
+                st = r.state if hasattr(r, 'state') else None
+                pr = prove(r, gen_, mant, 0, r.choice([0, 9]), digits=dig, sec_at={0: sec0})
+                if pr: chk.add(verify_line(pr, encode(pr)), 'adv_tiny_x_digit_commitment_canonical')
+                pa = prove(r, gen_, mant, 0, r.choice([0, 9]), digits=dig, sec_at={0: sec0}, alias_at=(0,))
+                if pa:
+                    chk.add(verify_line(pa, encode(pa)), 'adv_digit_commitment_x_plus_p')
+                    chk.add('rangeproof_rewind %s %s %s %s %s #64' % (r.bytes(32).hex(), obj(pa.commit), encode(pa).hex(), '-', obj(pa.gen)), 'adv_digit_commitment_x_plus_p_rewind')
     # has_min set with min_value = 0 (non-canonical but acceptable header)
     pr = prove(r, H, 2, 0, 0, has_min=True)
     if pr: mutations(chk, pr, 'hasmin_zero')
